@@ -1,4 +1,5 @@
 import HdModel.Props.C05
+import HdModel.Lemmas.PoolLinear
 /-! # C02 — a non-multiplexed connection serves one request at a time
 
 Step-level theorems about the pool model, valid in **every** state: a non-shareable connection is
@@ -79,5 +80,66 @@ theorem C02_exec_marks_busy (s : State) (c : ConnId) (k : Conn) (hk : s.conns c 
     (hl : s.cfg.lax = false) :
     isOpenC (setConn s c (fun k => { k with busy := true })) c = false := by
   simp [isOpenC, setConn, hk, hl]
+
+end Hd.Pool
+
+namespace Hd.Pool
+
+/-! ## Reachable-state theorems (from the linear-ownership invariant of `Lemmas/PoolLinear.lean`) -/
+
+/-- **C02 (one request at a time).** In every state reachable by any operation sequence, a connection
+    that cannot be multiplexed is in the hands of at most one request. -/
+theorem C02_one_holder (cfg : Config) (ops : List Op) (r r' : ReqId) (p p' : Pooled)
+    (h : (run (init cfg) ops).1.held r = some p) (h' : (run (init cfg) ops).1.held r' = some p')
+    (hc : p.conn = p'.conn) (hn : canShare (run (init cfg) ops).1 p.conn = false) : r = r' := by
+  have inv := run_lininv ops (init cfg) (lininv_init cfg) (originInv_init cfg)
+  have := inv.lin.point p.conn hn (.held r) (.held r') ⟨p, h, rfl⟩ ⟨p', h', hc.symm⟩
+  cases this; rfl
+
+/-- **C02 (held means out of the pool).** While a request holds a non-multiplexed connection it is
+    in no idle list, in no waiter's channel, in no other checkout and in no hand-back task: the pool
+    cannot give it to anybody else. -/
+theorem C02_held_out_of_pool (cfg : Config) (ops : List Op) (r : ReqId) (p : Pooled)
+    (h : (run (init cfg) ops).1.held r = some p) (hn : canShare (run (init cfg) ops).1 p.conn = false) :
+    (∀ t a, (p.conn, a) ∉ (run (init cfg) ops).1.idle t) ∧
+    (∀ r' q, (run (init cfg) ops).1.chan r' = .full q → q.conn ≠ p.conn) ∧
+    (∀ r' chk, (run (init cfg) ops).1.co r' = some chk → chk.conn ≠ some p.conn) ∧
+    (∀ i t hp, (i, Task.whenReady p.conn t hp) ∉ (run (init cfg) ops).1.tasks) := by
+  have inv := run_lininv ops (init cfg) (lininv_init cfg) (originInv_init cfg)
+  have hat : At (run (init cfg) ops).1 p.conn (.held r) := ⟨p, h, rfl⟩
+  refine ⟨?_, ?_, ?_, ?_⟩
+  · intro t a hm
+    have hpos : 0 < idleCount (run (init cfg) ops).1 p.conn t := by
+      unfold idleCount
+      exact List.count_pos_iff.mpr (List.mem_map.mpr ⟨(p.conn, a), hm, rfl⟩)
+    exact inv.lin.cross p.conn hn ⟨t, hpos⟩ _ hat
+  · intro r' q hq hqc
+    have := inv.lin.point p.conn hn (.held r) (.chan r') hat ⟨q, hq, hqc⟩
+    cases this
+  · intro r' chk hchk hcc
+    have := inv.lin.point p.conn hn (.held r) (.co r') hat ⟨chk, hchk, hcc⟩
+    cases this
+  · intro i t hp hm
+    have := inv.lin.point p.conn hn (.held r) (.task i) hat ⟨t, hp, hm⟩
+    cases this
+
+/-- **C02 (one copy in the pool).** A non-multiplexed connection is in at most one idle list, at most
+    once, and then in nobody's channel, checkout, hands or hand-back task. -/
+theorem C02_pooled_once (cfg : Config) (ops : List Op) (c : ConnId) (t t' : Token)
+    (hn : canShare (run (init cfg) ops).1 c = false)
+    (h : 0 < idleCount (run (init cfg) ops).1 c t) (h' : 0 < idleCount (run (init cfg) ops).1 c t') :
+    t = t' ∧ idleCount (run (init cfg) ops).1 c t = 1 ∧ ∀ l, ¬ At (run (init cfg) ops).1 c l := by
+  have inv := run_lininv ops (init cfg) (lininv_init cfg) (originInv_init cfg)
+  obtain ⟨e, one⟩ := inv.lin.idle1 c hn t t' h h'
+  exact ⟨e, one, inv.lin.cross c hn ⟨t, h⟩⟩
+
+/-- Non-vacuity: two requests for one origin on HTTP/1; the second only gets the connection after the
+    first released it and it became ready again. -/
+example :
+    let ops : List Op := [.issue 0 7 false, .poll 0, .dialDone 0 (.ok false), .poll 0, .issue 1 7 false, .poll 1,
+                          .finish 0, .run, .poll 1, .connReady 0, .run, .poll 1]
+    let s := (run (init {}) ops).1
+    s.held 0 = none ∧ s.held 1 = some ⟨0, 1, true⟩ ∧ (run (init {}) (ops.take 9)).1.held 1 = none := by
+  decide
 
 end Hd.Pool
